@@ -202,19 +202,19 @@ func (e *Engine) Paths(fn *ssa.Function, ctx *Ctx, mode Mode) []*Alt {
 		if !ok {
 			continue
 		}
-		states := []state{{nil, ctx}}
-		states = e.collect(g, b.Index, states)
-		// classification of the return itself
-		switch mode {
-		case ModeErr:
-			if hasErr {
-				last := ret.Results[len(ret.Results)-1]
-				states = e.applyErrOperand(last, b, g, states)
+		var states []state
+		switch {
+		case mode == ModeErr && hasErr:
+			last := ret.Results[len(ret.Results)-1]
+			for _, c := range e.phiCases(g, b.Index, last, []state{{nil, ctx}}, 0, 0) {
+				states = append(states, e.applyErrOperand(c.v, c.at, g, c.states)...)
 			}
-		case ModeTrue, ModeFalse:
-			if len(ret.Results) == 1 {
-				states = e.applyBoolOperand(ret.Results[0], mode == ModeTrue, states)
+		case (mode == ModeTrue || mode == ModeFalse) && len(ret.Results) == 1:
+			for _, c := range e.phiCases(g, b.Index, ret.Results[0], []state{{nil, ctx}}, 0, 0) {
+				states = append(states, e.applyBoolOperand(c.v, mode == ModeTrue, c.states)...)
 			}
+		default:
+			states = e.collect(g, b.Index, []state{{nil, ctx}}, 0)
 		}
 		for _, st := range states {
 			alt := &Alt{Gates: st.gates, Ret: ret, Ctx: st.ctx}
@@ -307,7 +307,7 @@ func (e *Engine) applyErrOperand(v ssa.Value, b *ssa.BasicBlock, g *Graph, state
 		if cal := call.Common().StaticCallee(); cal != nil {
 			switch cal.String() {
 			case "go.uber.org/multierr.Combine":
-				return e.mulCombine(call, states)
+				return e.mulCombine(call, states, b)
 			}
 		}
 	}
@@ -339,11 +339,17 @@ func callOf(v ssa.Value) (*ssa.Call, int) {
 
 // mulCombine: return multierr.Combine(a, b, ...) succeeds iff every argument
 // is nil; arguments that are results of repository calls contribute their gates.
-func (e *Engine) mulCombine(call *ssa.Call, states []state) []state {
+func (e *Engine) mulCombine(call *ssa.Call, states []state, at *ssa.BasicBlock) []state {
 	if len(call.Call.Args) != 1 {
 		return states
 	}
 	for _, el := range e.sliceElems(call.Call.Args[0]) {
+		if e.syntacticNonNil(el, 0) || (at != nil && knownNonNilAt(el, at)) {
+			return nil // an argument is known to be a non-nil error here
+		}
+		if c, ok := el.(*ssa.Const); ok && c.IsNil() {
+			continue
+		}
 		if c, idx := callOf(el); c != nil {
 			if cal := e.CalleeOf(c); cal != nil && (idx < 0 || idx == cal.Signature.Results().Len()-1) {
 				states = e.mulCall(c, cal, ModeErr, states, "")
@@ -507,11 +513,66 @@ func isBoolType(t types.Type) bool {
 
 // collect gathers the gates enforced on every path from the entry of g.Fn to
 // block target, in dominator order.
-func (e *Engine) collect(g *Graph, target int, states []state) []state {
+// phiCase is one way a (possibly phi-merged) operand of a return obtains its
+// value: the value, the block at which it is known, and the gates of the path.
+type phiCase struct {
+	v      ssa.Value
+	at     *ssa.BasicBlock
+	states []state
+}
+
+// phiCases splits the operand v of a return in block b along the incoming
+// edges of the phis that define it, so that `err` merged from "nil" and
+// "Combine(...)" yields one case per origin with that origin's path gates.
+func (e *Engine) phiCases(g *Graph, b int, v ssa.Value, states []state, from int, depth int) []phiCase {
+	fn := g.Fn
+	phi, ok := v.(*ssa.Phi)
+	if !ok || depth > 6 || phi.Block().Parent() != fn || !g.Dominates(phi.Block().Index, b) || !g.Dominates(from, phi.Block().Index) {
+		return []phiCase{{v, fn.Blocks[b], e.collect(g, b, states, from)}}
+	}
+	pb := phi.Block().Index
+	var out []phiCase
+	for i, edge := range phi.Edges {
+		p := phi.Block().Preds[i].Index
+		if !g.Reach[p] || !hasEdge(g, p, pb) {
+			continue
+		}
+		if g.Dominates(pb, p) {
+			// back edge into a loop-header phi: not split
+			return []phiCase{{v, fn.Blocks[b], e.collect(g, b, states, from)}}
+		}
+		for _, c := range e.phiCases(g, p, edge, states, from, depth+1) {
+			st := c.states
+			// the edge p -> pb itself
+			pblk := fn.Blocks[p]
+			if iff, ok := pblk.Instrs[len(pblk.Instrs)-1].(*ssa.If); ok && len(g.Succ[p]) == 2 && pblk.Succs[0].Index != pblk.Succs[1].Index {
+				st = e.expand(iff.Cond, pblk.Succs[0].Index == pb, st, "", nil, condPos(iff))
+			}
+			// tests between the phi and the return
+			st = e.collect(g, b, st, pb)
+			at := c.at
+			if _, isPhi := c.v.(*ssa.Phi); !isPhi {
+				at = fn.Blocks[p]
+			}
+			out = append(out, phiCase{c.v, at, st})
+		}
+	}
+	if len(out) == 0 {
+		return []phiCase{{v, fn.Blocks[b], e.collect(g, b, states, from)}}
+	}
+	return out
+}
+
+// collect gathers the gates enforced on every path to block target, in
+// dominator order, considering only dominators at or below block `from`.
+func (e *Engine) collect(g *Graph, target int, states []state, from int) []state {
 	fn := g.Fn
 	doms := g.Dominators(target)
 	loopsDone := map[*Loop]bool{}
 	for _, d := range doms {
+		if !g.Dominates(from, d) {
+			continue
+		}
 		// loops headed here and completed before target
 		for _, l := range g.Loops {
 			if l.Head == d && !l.Body[target] && !loopsDone[l] {
@@ -542,7 +603,9 @@ func (e *Engine) collect(g *Graph, target int, states []state) []state {
 		}
 		states = e.expand(iff.Cond, r0, states, "", nil, condPos(iff))
 	}
-	states = e.collectImplications(g, target, states)
+	if from == 0 {
+		states = e.collectImplications(g, target, states)
+	}
 	return states
 }
 
